@@ -1462,6 +1462,9 @@ func (r *Raft) InstallSnapshot(
 			r.applyCond.Wait()
 		}
 
+		// The term may have changed while the lock was released.
+		response.Term = r.currentTerm
+
 		// It's possible that a snapshot was taken and the log was compacted while the lock was released.
 		if r.state == Shutdown || r.lastIncludedIndex > request.LastIncludedIndex {
 			return nil
@@ -1495,6 +1498,9 @@ func (r *Raft) InstallSnapshot(
 		r.logger.Fatalf("failed to close snapshot file: error = %v", err)
 	}
 	r.mu.Lock()
+
+	// The term may have changed while the lock was released.
+	response.Term = r.currentTerm
 
 	if r.state == Shutdown {
 		return nil
